@@ -40,7 +40,9 @@ ODD_FIELDS = ["my field", "Ünï", "x2", "_u", "a.b",
               # full-width letters): a name is whatever the caller wrote
               "time_\u00b5s", "R_\u2126", "m\u00b2", "e\u0301x", "\uff49\uff44",
               # names with characters that mean something elsewhere (shell wildcards, brackets)
-              "count(*)", "active?", "vals[0]", "a*"]
+              "count(*)", "active?", "vals[0]", "a*",
+              # names that end like the width hint a printed table adds to a column description
+              "count(1)", "sum(12)", "n (3)"]
 
 
 def init_zygote():
